@@ -957,7 +957,7 @@ fn main() {
         }
         let t = format!("CPerm {} {} {} {}", coq_str(&base.verdict), coq_str(&other.verdict),
             coq_list(&c1, |(k, d)| format!("({}, {})", coq_str(k), coq_n(*d))), coq_list(&c2, |(k, d)| format!("({}, {})", coq_str(k), coq_n(*d))));
-        cases.push(t, json!({"kind":"perm","schema_files":p.files(),"permuted_schema_files":f2,"operations":o2,"config":y2,
+        cases.push(t, json!({"kind":"perm","schema_files":p.files(),"permuted_schema_files":f2,"operations":o2,"config":p.config_yaml(),"permuted_config":y2,
             "verdict":base.verdict,"permuted_verdict":other.verdict,"diagnostics":base.diagnostics,"permuted_diagnostics":other.diagnostics,
             "files_whose_normal_form_differs":differing}));
         perm_done += 1;
